@@ -47,17 +47,15 @@ def run_verus(path, extra=None, timeout=1800):
 
 
 def confirm_in_isolation(path, qualified):
-    """True iff the function verifies when it is the only function verus is asked to verify."""
-    name = qualified.split("::")[-1]
+    """True iff the function verifies when it is the only function verus is asked to verify.
+    `qualified` is the name verus reports (`unit::Type::fn` or `unit::fn`); --verify-function wants it without the module."""
+    name = "::".join(qualified.split("::")[1:]) or qualified
     r = run_verus(path, extra=["--verify-root", "--verify-function", name])
     d = r["json"]
     try:
-        ok = None
-        for mod in d["times-ms"]["smt"]["smt-run-module-times"]:
-            for fb in mod.get("function-breakdown", []):
-                if fb["function"] == qualified:
-                    ok = bool(fb.get("success")) if ok is None else (ok and bool(fb.get("success")))
-        return bool(ok)
+        vr = d["verification-results"]
+        # (the function-breakdown of a partial run lists unselected functions as successful: only the totals are meaningful)
+        return (not vr.get("encountered-error")) and (not vr.get("encountered-vir-error")) and vr.get("errors", 1) == 0 and vr.get("verified", 0) >= 1
     except Exception:
         return False
 
@@ -266,6 +264,10 @@ def run_unit(unit, twin=None):
                     ob["failed_checks"] = [{"msg": e.splitlines()[0] + " @ " + (re.search(r"--> (\S+)", e).group(1).split("/")[-1] if re.search(r"--> \S+", e) else ""),
                                             "kind": "failed"} for e in errs][:6]
                     ob["verifier_output"] = txt[:6000]
+                elif confirm_in_isolation(dst, fb["function"]):
+                    # resource limit hit (or an unattributed failure) in the batch run only: the isolated run discharges it
+                    ob["status"] = "verified"
+                    ob["note"] = "resource limit / unattributed failure in the batch run, verified when run alone (--verify-function)"
                 else:
                     ob["status"] = "undecided"
                     ob["reason"] = ("rlimit/timeout: " if re.search(r"resource limit|rlimit", txt, re.I) else "unattributed failure: ") + (txt[:300] or r["stderr"][-300:])
@@ -382,7 +384,9 @@ def run_units(units, pid, tier):
             for o in r["obligations"]:
                 name = "::".join(o["id"].split("::")[1:])  # qualified: Type::fn
                 # unit-level (un-attributable) results and lemmas are always kept; functions by filter
-                if o["id"].count("::") == 0 or re.search(flt, name) or o.get("mode") == "proof":
+                # (a stubbed statement-range wrapper is reported under the source function's container: match its bare name too)
+                if o["id"].count("::") == 0 or re.search(flt, name) or o.get("mode") == "proof" \
+                        or (o.get("status") == "undecided" and re.search(flt, name.split("::")[-1])):
                     keep.append(o)
             r["obligations"] = keep
         obligations += r["obligations"]
